@@ -270,7 +270,9 @@ class Gen:
         return m
 
     # ---------------- whole model
-    def model(self):
+    def model(self, norows=False):
+        """norows: a model without any algebraic or logical constraint (bounds only / SOS only), objective with a
+        nonlinear part so that derived items exist"""
         r = self.r
         m = Model()
         nv = r.rint(2, 4 + 2 * self.size)
@@ -307,7 +309,7 @@ class Gen:
             if k == 4:
                 return ('if', r.choice(lpool), r.choice(pool), ('n', r.rint(0, 3)))
             return self.num(nv, depth)
-        ncon = r.rint(1, 3 + 2 * self.size)
+        ncon = 0 if norows else r.rint(1, 3 + 2 * self.size)
         for i in range(ncon):
             k = r.below(5)
             a = r.rint(-4, 6)
@@ -322,7 +324,7 @@ class Gen:
             else:
                 lb, ub = a - r.rint(1, 3), a + 2
             m.con(lb, ub, self.lin(nv, 1, 3) if r.chance(4, 5) else {}, nlpart())
-        for i in range(r.below(2 + self.size)):
+        for i in range(0 if norows else r.below(2 + self.size)):
             k = r.below(4)
             if k == 0:
                 e = r.choice(lpool)
@@ -333,11 +335,11 @@ class Gen:
             else:
                 e = self.log(nv, depth)
             m.lcon(e)
-        for i in range(r.rint(1, 2) if r.chance(1, 4) else (0 if r.chance(1, 12) else 1)):
-            m.obj(r.choice(['min', 'max']), self.lin(nv, 1, 3), nlpart() if r.chance(1, 2) else None)
+        for i in range(r.rint(1, 2) if r.chance(1, 4) else (0 if (r.chance(1, 12) and not norows) else 1)):
+            m.obj(r.choice(['min', 'max']), self.lin(nv, 1, 3), (nlpart() or r.choice(pool)) if (norows and r.chance(3, 4)) else (nlpart() if r.chance(1, 2) else None))
         # SOS via suffixes
         self.sos_groups = {}
-        if nv >= 3 and r.chance(1, 3):
+        if nv >= 3 and r.chance(1, 2 if norows else 3):
             ngroups = r.rint(1, 2)
             free = list(range(nv))
             sosno, ref = {}, {}
